@@ -1019,6 +1019,36 @@ func closureOracle(r *Run, opName, d string, before, after gts.Sequence) {
 			return
 		}
 		report(false, "Gts.C01.writable_record_insert_partial")
+	case "embed":
+		var i int
+		fmt.Sscanf(d, "embed@%d", &i)
+		opLine = fmt.Sprintf("seq.embed %s %d %s", encSeq(before), i, encSeq(lastGuest))
+		if !tableAll(before, canonP) || !tableAll(lastGuest, canonP) || !within(before) || !within(lastGuest) ||
+			!tableAll(before, wellFormed) || !tableAll(lastGuest, wellFormed) {
+			r.count("pipeline/closure/embed/outside the guards")
+			return
+		}
+		report(false, "Gts.C01.writable_record_embed_partial")
+	case "concat":
+		opLine = fmt.Sprintf("seq.concat %s %s", encSeq(before), encSeq(lastGuest))
+		if !tableAll(before, canonP) || !tableAll(lastGuest, canonP) || !within(lastGuest) || !tableAll(lastGuest, wellFormed) {
+			r.count("pipeline/closure/concat/outside the guards")
+			return
+		}
+		report(false, "Gts.C01.writable_record_concat_partial")
+	case "erase":
+		var i, k int
+		fmt.Sscanf(d, "erase@%d+%d", &i, &k)
+		opLine = fmt.Sprintf("seq.erase %s %d %d", encSeq(before), i, k)
+		if !tableAll(before, canonP) {
+			r.count("pipeline/closure/erase/outside the guards")
+			return
+		}
+		// the guard over ALL features (the theorem asks it of the features Erase keeps only)
+		g := !tableAll(before, func(l gts.Location) bool {
+			return !opK3(l, func(u gts.Location) gts.Location { return u.Expand(i, -k) }, false)
+		})
+		report(g, "Gts.C01.writable_record_erase_partial")
 	case "delete":
 		var i, k int
 		fmt.Sscanf(d, "delete@%d+%d", &i, &k)
